@@ -21,6 +21,13 @@ use skrifa::MetadataProvider;
 use std::collections::{BTreeMap, BTreeSet};
 use write_fonts::FontBuilder;
 
+#[path = "c17/cmapx.rs"]
+mod cmapx;
+#[path = "c17/gvar.rs"]
+mod gvar;
+#[path = "c17/hvar.rs"]
+mod hvar;
+
 const F_NO_HINTING: u16 = 0x0001;
 const F_RETAIN_GIDS: u16 = 0x0002;
 const F_SET_OVERLAPS: u16 = 0x0010;
@@ -1665,6 +1672,11 @@ fn run(cfg: &Config, s: &mut Session) {
         let label = format!("corpus:{}", p.file_name().unwrap().to_string_lossy());
         run_font(s, &mut r, label, &data, if th { 100 } else { 6 }, false);
     }
+
+    // 6. table subsetters beyond the glyph-level core (own RNG streams: independent of the sections above)
+    cmapx::run(cfg, s, &mut Rng::new(cfg.seed ^ 0xC3A9));
+    hvar::run(cfg, s, &mut Rng::new(cfg.seed ^ 0x48564152));
+    gvar::run(cfg, s, &mut Rng::new(cfg.seed ^ 0x67766172));
 }
 
 fn run_guarded(cfg: &Config, s: &mut Session) {
